@@ -5,7 +5,7 @@ use opcua::server::address_space::types::*;
 use opcua::server::address_space::AddressSpace;
 use opcua::server::prelude::*;
 use opcua::sync::RwLock;
-use opcua::verif_hooks::view::VViewService;
+use opcua::verif_hooks::view::{set_view_limits, view_limits, VViewService};
 use std::collections::{BTreeSet, HashSet};
 use std::sync::Arc;
 
@@ -86,6 +86,17 @@ impl Prop for C31 {
                     out.push(format!("tr {} -", start));
                     continue;
                 }
+                // the graph keeps changing between translations
+                if rng.chance(1, 6) {
+                    let s2 = rng.range(1, u as i64 + 1) as u32;
+                    let t2 = rng.range(1, u as i64 + 1) as u32;
+                    if s2 != t2 {
+                        out.push(format!("ref {} {} {}", s2, t2, rng.pick(&STORED)));
+                    }
+                }
+                if rng.chance(1, 10) {
+                    out.push(format!("node {} {}", rng.range(1, u as i64 + 2), rng.pick(&names)));
+                }
                 let len = rng.weighted(&[1, 8, 6, 3, 1]);
                 let es: Vec<String> = (0..len)
                     .map(|_| {
@@ -93,7 +104,16 @@ impl Prop for C31 {
                         format!("{}:{}:{}:{}", rng.pick(&FILTERS), b(rng.chance(1, 3)), b(rng.chance(2, 3)), nm)
                     })
                     .collect();
-                out.push(format!("tr {} [{}]", start, es.join(",")));
+                if rng.chance(1, 8) {
+                    // several paths in one request, around the operational limit
+                    if rng.chance(1, 3) {
+                        out.push(format!("limit {}", rng.pick(&[0u32, 1, 2, 10, 11])));
+                    }
+                    let k = *rng.pick(&[0u32, 1, 2, 9, 10, 11, 12]);
+                    out.push(format!("trn {} {} [{}]", k, start, es.join(",")));
+                } else {
+                    out.push(format!("tr {} [{}]", start, es.join(",")));
+                }
             }
         }
     }
@@ -204,12 +224,85 @@ fn type_num(id: &NodeId) -> u32 {
     node_num(id)
 }
 
+fn relative_path(els: &Option<Vec<El>>) -> RelativePath {
+    RelativePath {
+        elements: els.as_ref().map(|els| {
+            els.iter()
+                .map(|e| RelativePathElement {
+                    reference_type_id: id_node(e.ty),
+                    is_inverse: e.inverse,
+                    include_subtypes: e.sub,
+                    target_name: name(e.name),
+                })
+                .collect()
+        }),
+    }
+}
+
+fn result_line(r: &BrowsePathResult) -> String {
+    if r.status_code.is_good() {
+        let mut got: Vec<u32> = r.targets.clone().unwrap_or_default().iter().map(|t| node_num(&t.target_id.node_id)).collect();
+        got.sort();
+        format!("Good [{}]", got.iter().map(|x| x.to_string()).collect::<Vec<_>>().join(","))
+    } else {
+        r.status_code.name().to_string()
+    }
+}
+
 impl Runner for R {
     fn step(&mut self, toks: &[&str]) -> (String, Verdict) {
         let fx = fixtures::server();
         let bad = || ("bad-op".to_string(), Verdict::Ok);
         match toks {
-            ["reset"] => ("ok".to_string(), Verdict::Ok),
+            ["reset"] => {
+                {
+                    let mut ss = fx.server_state.write();
+                    let (b, _) = view_limits(&ss);
+                    set_view_limits(&mut ss, b, 10);
+                }
+                ("ok".to_string(), Verdict::Ok)
+            }
+            ["limit", l] => {
+                let Ok(l) = l.parse::<u32>() else { return bad() };
+                {
+                    let mut ss = fx.server_state.write();
+                    let (b, _) = view_limits(&ss);
+                    set_view_limits(&mut ss, b, l as usize);
+                }
+                ("ok".to_string(), Verdict::Ok)
+            }
+            ["trn", k, start, es] => {
+                let (Ok(k), Ok(start)) = (k.parse::<usize>(), start.parse::<u32>()) else { return bad() };
+                if k > 40 {
+                    return bad();
+                }
+                let els = if *es == "-" { None } else { Some(match parse_elems(es) { Some(e) => e, None => return bad() }) };
+                let path = BrowsePath { starting_node: id_node(start), relative_path: relative_path(&els) };
+                let req = TranslateBrowsePathsToNodeIdsRequest {
+                    request_header: RequestHeader::dummy(),
+                    browse_paths: Some(vec![path; k]),
+                };
+                let limit = view_limits(&fx.server_state.read()).1;
+                match VViewService::new().translate_browse_paths_to_node_ids(fx.server_state.clone(), self.address_space.clone(), &req) {
+                    SupportedMessage::TranslateBrowsePathsToNodeIdsResponse(r) => {
+                        let rs = r.results.unwrap_or_default();
+                        let lines: Vec<String> = rs.iter().map(result_line).collect();
+                        // the oracle: as many results as paths, all equal (same path), within the limit
+                        let v = if rs.len() != k {
+                            Verdict::fail("translate_status", "multi", format!("{} results for {} paths", rs.len(), k))
+                        } else if lines.windows(2).any(|w| w[0] != w[1]) {
+                            Verdict::fail("translate_sound", "multi", format!("equal paths, different results: {:?}", lines))
+                        } else if k > limit {
+                            Verdict::fail("translate_status", "multi", "more paths than the operational limit were served")
+                        } else {
+                            Verdict::Ok
+                        };
+                        (format!("ok x{} {}", k, lines.first().cloned().unwrap_or_default()), v)
+                    }
+                    SupportedMessage::ServiceFault(f) => (format!("err {}", f.response_header.service_result.name()), Verdict::Ok),
+                    _ => ("err other".to_string(), Verdict::fail("translate_status", "multi", "unexpected message")),
+                }
+            }
             ["node", id, nm] => {
                 let (Ok(id), Ok(nm)) = (id.parse::<u32>(), nm.parse::<u32>()) else { return bad() };
                 if id == 0 || id > 30 || nm == 0 || nm >= 100 {
@@ -233,18 +326,7 @@ impl Runner for R {
             ["tr", start, es] => {
                 let Ok(start) = start.parse::<u32>() else { return bad() };
                 let els = if *es == "-" { None } else { Some(match parse_elems(es) { Some(e) => e, None => return bad() }) };
-                let relative_path = RelativePath {
-                    elements: els.as_ref().map(|els| {
-                        els.iter()
-                            .map(|e| RelativePathElement {
-                                reference_type_id: id_node(e.ty),
-                                is_inverse: e.inverse,
-                                include_subtypes: e.sub,
-                                target_name: name(e.name),
-                            })
-                            .collect()
-                    }),
-                };
+                let relative_path = relative_path(&els);
                 let req = TranslateBrowsePathsToNodeIdsRequest {
                     request_header: RequestHeader::dummy(),
                     browse_paths: Some(vec![BrowsePath { starting_node: id_node(start), relative_path }]),
@@ -252,7 +334,10 @@ impl Runner for R {
                 let resp = VViewService::new().translate_browse_paths_to_node_ids(fx.server_state.clone(), self.address_space.clone(), &req);
                 let r = match resp {
                     SupportedMessage::TranslateBrowsePathsToNodeIdsResponse(r) => r.results.unwrap_or_default().into_iter().next(),
-                    SupportedMessage::ServiceFault(f) => return (format!("err {}", f.response_header.service_result.name()), Verdict::fail("translate_status", "fault", "service fault")),
+                    SupportedMessage::ServiceFault(f) => {
+                        let v = if view_limits(&fx.server_state.read()).1 == 0 { Verdict::Ok } else { Verdict::fail("translate_status", "fault", "service fault") };
+                        return (format!("err {}", f.response_header.service_result.name()), v);
+                    }
                     _ => None,
                 };
                 let Some(r) = r else { return ("err no-result".into(), Verdict::fail("translate_status", "fault", "no result")) };
